@@ -27,7 +27,7 @@ def dumpNode (w : Net) (nd : Node) : String :=
   let hosts := sortStrs (nd.main.hosts.map (fun (a, l) => s!"{a}=" ++ join "/" (l.map (fun h => toString h.localIndex))))
   let idx := (sortByKey nd.main.indexes).map (fun (k, h) =>
     s!"{k}:{h.localIndex}:{h.remoteIndex}:{h.hsTime}:" ++ join "+" (h.vpnAddrs.map toString) ++
-    s!":{(if h.initiator then 10 else 0) + h.certVer}:{match h.remote with | some u => toString u | none => "-"}:{pktName w h.pkt0}:{pktName w h.pkt2}")
+    s!":{(if h.initiator then 10 else 0) + h.certVer}:{match h.remote with | some u => toString u | none => "-"}:{pktName w h.pkt0}:{pktName w h.pkt2}:{(if nd.pdl.contains h.id then 10 else 0) + h.myVer}")
   let ridx := (sortByKey nd.main.remoteIndexes).map (fun (k, h) => s!"{k}>{h.localIndex}")
   s!"P[{join "," pend}] PI[{join "," pidx}] H[{join "," hosts}] I[{join "," idx}] R[{join "," ridx}]"
 
@@ -48,7 +48,8 @@ def parseSpec (node : Nat) (retries : Int) (intervalMs : Nat) (s : String) : Opt
     | some v =>
       if addrs.isEmpty || v < 1 || v > 3 then none else
       -- a v2 certificate stores its networks sorted
-      some { node := node, myAddrs := if v == 2 then addrs.foldl (fun acc a => insertSorted a acc) [] else addrs.take 1, hasV1 := v == 1 || v == 3, hasV2 := v == 2 || v == 3,
+      -- (v1+v2 nodes: the v1 certificate holds the smallest address, the v2 one all of them)
+      some { node := node, myAddrs := if v == 1 then addrs.take 1 else addrs.foldl (fun acc a => insertSorted a acc) [], hasV1 := v == 1 || v == 3, hasV2 := v == 2 || v == 3,
              retries := retries, interval := intervalMs * 1000000 }
     | none => none
   | _ => none
@@ -69,12 +70,15 @@ def parseOp (a : List String) : Option Op :=
   | ["idx", n, v] => do pure (.idx (← n.toNat?) (← v.toNat?))
   | ["del", n, li] => do pure (.del (← n.toNat?) (← li.toNat?))
   | ["swap", n, li] => do pure (.swap (← n.toNat?) (← li.toNat?))
+  | ["cmcheck", n, li, i, o] => do pure (.cmcheck (← n.toNat?) (← li.toNat?) (i == "1") (o == "1"))
+  | ["block", n, m] => do pure (.block (← n.toNat?) (← m.toNat?))
   | _ => none
 
 structure St where
   w : Net := {}
   retry : List HsRetry.St := []          -- per node
   tainted : List (Nat × Nat) := []       -- (node, addr) that had more than one timer entry (class naming only)
+  marked : List (Nat × Nat) := []        -- C31 spec: (node, tunnel identity) with a quiet check since the last inbound traffic
   removed : List (Nat × Nat × Nat) := [] -- ghost of C31: (node, local index, remote index) of tunnels a node deleted / evicted
   deriving Inhabited
 
@@ -131,7 +135,12 @@ def step (s : St) (args : List String) (impl : String) : St × Out :=
           let r2 := syncRetry r1 nd'
           let gone := nd.main.indexes.filterMap (fun (li, h) =>
             if (alookup li nd'.main.indexes).map (·.id) == some h.id then none else some (n, li, h.remoteIndex))
-          let s' : St := { w := w', retry := s.retry.set n r2, removed := s.removed ++ gone,
+          let marked' := match op with
+            | .cmcheck _ li i _ => match alookup li nd.main.indexes with
+              | some hi => if i then s.marked.filter (· != (n, hi.id)) else (n, hi.id) :: s.marked.filter (· != (n, hi.id))
+              | none => s.marked
+            | _ => s.marked
+          let s' : St := { w := w', retry := s.retry.set n r2, removed := s.removed ++ gone, marked := marked',
                            tainted := ((s.tainted.filter (fun (m, a) => m != n ||
                                 (nd'.p.vpnIps.any (·.1 == a) && (nd'.p.wheel.slots.flatten.filter (·.1 == a)).length > 0))) ++
                               (nd'.p.vpnIps.map (·.1)).filterMap (fun a =>
@@ -165,10 +174,27 @@ def step (s : St) (args : List String) (impl : String) : St × Out :=
               ((pre.node? src).map (fun p => p.main.indexes.map (fun (li, h) => (li, h.remoteIndex)))).getD [] ++
               (s.removed.filter (·.1 == src)).map (fun r => (r.2.1, r.2.2))
             | none => []
-          let v31 := HsManager.c31 ctx kind (secs.headD "") swapAllowed peerPairs
+          -- connection-manager check: the specification's own mark (independent of the implementation's flag)
+          let chk : Option (Nat × HostInfo × Bool) := match op with
+            | .cmcheck _ li i _ => (alookup li nd.main.indexes).map (fun hi => (li, hi, i))
+            | _ => none
+          let v31c := match chk with
+            | some (li, hi, inT) =>
+              let wasMarked := s.marked.contains (n, hi.id)
+              let allowed := (!inT && wasMarked) || nd.blocked.contains hi.certId
+              let isPrim := (nd.main.primary (hi.vpnAddrs.headD 0)).map (·.id) == some hi.id
+              let paired := isPrim && pre.nodes.any (fun q => q.cfg.node != n && q.cfg.myAddrs.contains (hi.vpnAddrs.headD 0) &&
+                nd.cfg.myAddrs.any (fun a => match q.main.primary a with
+                  | some ph => ph.localIndex == hi.remoteIndex && ph.remoteIndex == hi.localIndex
+                  | none => false))
+              HsManager.c31check ctx li allowed paired
+            | none => "ok"
+          let v31 := let v := HsManager.c31 ctx kind (secs.headD "") swapAllowed peerPairs; if v == "ok" then v31c else v
           let verdict := if secs.length != 7 then (if impl == model then "ok" else "bad malformed-answer") else
             [v09, v10, v32, v31].foldl (fun acc v => if acc == "ok" then v else acc) "ok"
-          (s', { model := model, verdict := verdict, tag := HsManager.tagOf kind op res })
+          (s', { model := model, verdict := verdict, tag := HsManager.tagOf kind op (match op with
+              | .cmcheck _ li i o => (nd.trafficCheck li i o).2.1
+              | _ => res) })
         | _, _ => (s, badOp)
 
 def main : IO Unit := runEngine ({} : St) step
